@@ -108,6 +108,11 @@ func EndBlocker(ctx sdk.Context, k keeper.Keeper) {
 						sdk.NewAttribute(types.AttributeKeyConsumer, requestContext.Consumer),
 					),
 				})
+				// the batch cannot be priced: drop its queue entry and pause the
+				// context (as for insufficient balances) so that the consumer can
+				// start it again, instead of leaving it running with a stale entry
+				k.DeleteNewRequestBatch(ctx, requestContextID, ctx.BlockHeight())
+				k.OnRequestContextPaused(ctx, requestContext, requestContextID, "no exchange rate")
 				return
 			}
 
